@@ -115,6 +115,12 @@ func (rs *ResourceSubscription) GetModel() (*Model, uint) {
 func (rs *ResourceSubscription) Unsubscribe(sub Subscriber) {
 	rs.e.Enqueue(func() {
 		if sub != nil {
+			// Quick exit if the subscriber is already released, such as by a
+			// delete event being handled prior to this unsubscribe. Its count
+			// has in that case already been removed.
+			if _, ok := rs.subs[sub]; !ok {
+				return
+			}
 			delete(rs.subs, sub)
 		}
 
